@@ -72,6 +72,7 @@ func (cache *TxCache) AddTx(tx *WrappedTransaction) (ok bool, added bool) {
 	addedInByHash := cache.txByHash.addTx(tx)
 	addedInBySender, evicted := cache.txListBySender.addTxReturnEvicted(tx)
 	cache.mutTxOperation.Unlock()
+	verifPoint("txcache.addTx.afterUnlock")
 	if addedInByHash != addedInBySender {
 		// This can happen  when two go-routines concur to add the same transaction:
 		// - A adds to "txByHash"
